@@ -117,14 +117,18 @@ class CapturedKernel:
         for _, off in self.writes:
             if any(off):
                 raise HarnessError("off-centre write not modelled")
-        self.key = hashlib.sha256(
-            (
-                sp.srepr([(l, r) for l, r in self.assignments])
-                + repr(self.iteration_slice)
-                + repr(self.dtype)
-                + repr(self.threads)
-            ).encode()
-        ).hexdigest()[:16]
+        def canon(e):
+            rep = {
+                a: sp.Symbol(f"{a.field.name}@{tuple(int(o) for o in a.offsets)}@{a.field.spatial_dimensions}")
+                for a in e.atoms()
+                if _is_access(a)
+            }
+            return sp.srepr(e.xreplace(rep)) if rep else sp.srepr(e)
+
+        ir = ";".join(f"{canon(l)}:={canon(r)}" for l, r in self.assignments)
+        ir += repr(self.iteration_slice) + repr(self.dtype) + f"ndim={self.ndim}"
+        self.ir_key = hashlib.sha256(ir.encode()).hexdigest()[:16]
+        self.key = hashlib.sha256((ir + repr(self.threads)).encode()).hexdigest()[:16]
         # kernel-level independence (what pystencils would have to assume for OpenMP):
         # every read of a written field is a centre read
         self.loop_carried = [
